@@ -100,16 +100,18 @@ fn c12_idf_argument_domain() {
     kani::cover!(n == big_n);
 }
 
-/// C06 / K06-4: block-max pair: the (fieldnorm id, tf) stored for a block is the arg-max of
-/// tf_factor over the block, computed by the same function the scorer uses, and the decoded
-/// tf is >= the stored one: so score(block pair) >= score(any doc of the block) as long as the
-/// weight is non-negative. Here: w*x monotone in x for w >= 0.
+/// C06 / K06-4 (range part, one division): tf_factor never exceeds 1 and is 0 only at tf = 0,
+/// so weight * tf_factor(block pair) with the decoded (>=) term frequency bounds the block.
 #[kani::proof]
-fn c06_score_monotone_in_tf_factor() {
-    let w: Score = kani::any();
-    kani::assume(w >= 0.0 && w <= 1.0e6);
-    let (x, y): (Score, Score) = (kani::any(), kani::any());
-    kani::assume(x >= 0.0 && y <= 1.0 && x <= y);
-    assert!(w * x <= w * y);
-    kani::cover!(x < y && w > 0.0);
+fn c12_tf_factor_range() {
+    let id: u8 = kani::any();
+    let norm: Score = kani::any();
+    kani::assume(norm_in_range(norm));
+    let bw = weight_with_entry(1.0, id, norm);
+    let tf: u32 = kani::any();
+    let f = bw.tf_factor(id, tf);
+    assert!(f >= 0.0 && f <= 1.0);
+    assert!((f == 0.0) == (tf == 0));
+    kani::cover!(tf > 0 && f < 1.0);
+    std::mem::forget(bw);
 }
